@@ -200,176 +200,257 @@ pub fn __as_f64<T: ToF64>(x: T) -> (r: f64) ensures r == x.to_f64_spec() { x.__t
 // R13: identity on f64 (see rule R13 of the extractor)
 pub fn __idf(x: f64) -> (r: f64) ensures r == x { x }
 
-// ---- extracted from src/solve/data.rs: struct RegretParams ----
-#[derive(Clone, Copy)]
-pub struct RegretParams {
-    /// The discount factor for positive cumulative regret or `α`.
-    ///
-    /// Positive cumulative regrets are discounted by `tᵅ/(tᵅ + 1)` every iteration `t`. Setting
-    /// alpha closer to infinity implies no discounting, while setting it at negative infinity
-    /// means imediate forgetting. Note that any non-positive value is probably not desired.
-    pub pos_regret: f64,
-    /// The discount factor for negative cumulative regret or `β`
-    ///
-    /// Negative cumulative regrets are discounted by `tᵝ/(tᵝ + 1)` every iteration `t`. The
-    /// values are the same as for positive regrets. Setting this to a non-positive value will
-    /// prevent the cumulative regret of negative regret actions from approaching negative
-    /// infinity, which can make pruning negative regret actions impossible.
-    pub neg_regret: f64,
-    /// The average strategy discount factor `γ`
-    ///
-    /// The average strategy is discounted by `(ᵗ⁄ₜ₊₁)ᵞ` every iteration t, which is equivalent to
-    /// weighting each strategy update by `tᵞ`.
-    pub strat: f64,
-    /// The scale for picking a strategy when all regrets are negative
-    ///
-    /// If all actions have negative regret, the chosen strategy can be anything. We use the
-    /// softmax of the regrets times this weight. Setting it to infinity is the same as always
-    /// playing the strategy with the highest regret. Zero is equivalent to playing each action
-    /// uniformly. No other values are recommend, but interpolate between those extremes.
-    pub no_positive: f64,
+// ---- prelude fragment: ideal.rs ----
+// Floating point, layer 2 ("idealised real" mode of DESIGN.md 3.2): machine arithmetic treated as
+// mathematical.  rv maps a float to the real it denotes; rounding, overflow, NaN and signed zero are
+// ignored.  Used only where the property is a statement of real arithmetic.
+pub uninterp spec fn rv(x: f64) -> real;
+pub broadcast axiom fn ax_rv_add(a: f64, b: f64) ensures rv(#[trigger] fadd(a, b)) == rv(a) + rv(b);
+pub broadcast axiom fn ax_rv_sub(a: f64, b: f64) ensures rv(#[trigger] fsub(a, b)) == rv(a) - rv(b);
+pub broadcast axiom fn ax_rv_mul(a: f64, b: f64) ensures rv(#[trigger] fmul(a, b)) == rv(a) * rv(b);
+pub broadcast axiom fn ax_rv_div(a: f64, b: f64) ensures rv(b) != 0real ==> rv(#[trigger] fdiv(a, b)) == rv(a) / rv(b);
+pub broadcast axiom fn ax_rv_neg(a: f64) ensures rv(#[trigger] fneg(a)) == 0real - rv(a);
+pub broadcast axiom fn ax_rv_cmp(a: f64, b: f64)
+    ensures #[trigger] fcmp(a, b) == (if rv(a) < rv(b) { Some(core::cmp::Ordering::Less) }
+        else if rv(a) == rv(b) { Some(core::cmp::Ordering::Equal) } else { Some(core::cmp::Ordering::Greater) });
+pub broadcast axiom fn ax_rv_eq(a: f64, b: f64) ensures #[trigger] feq(a, b) == (rv(a) == rv(b));
+pub broadcast axiom fn ax_rv_max(a: f64, b: f64) ensures rv(#[trigger] fmaxf(a, b)) == (if rv(a) >= rv(b) { rv(a) } else { rv(b) });
+pub broadcast axiom fn ax_rv_min(a: f64, b: f64) ensures rv(#[trigger] fminf(a, b)) == (if rv(a) <= rv(b) { rv(a) } else { rv(b) });
+// (idealised) powf denotes a function of the real values of its arguments
+pub uninterp spec fn rpow(x: real, y: real) -> real;
+pub broadcast axiom fn ax_rv_powf(a: f64, b: f64) ensures rv(#[trigger] fpowf(a, b)) == rpow(rv(a), rv(b));
+pub axiom fn ax_rv_lits()
+    ensures rv(0.0f64) == 0real, rv(1.0f64) == 1real, rv(2.0f64) == 2real, rv(0.5f64) * 2real == 1real;
+pub broadcast group ideal {
+    ax_rv_add, ax_rv_sub, ax_rv_mul, ax_rv_div, ax_rv_neg, ax_rv_cmp, ax_rv_eq, ax_rv_max, ax_rv_min, ax_rv_powf
+}
+// (idealised) integer-to-float casts are exact
+pub broadcast axiom fn ax_rv_u64(n: u64) ensures rv(#[trigger] u64_to_f64(n)) == n as real;
+pub broadcast axiom fn ax_rv_usize(n: usize) ensures rv(#[trigger] usize_to_f64(n)) == n as real;
+pub broadcast group ideal_casts { ax_rv_u64, ax_rv_usize }
+
+// ---- extracted from src/lib.rs: enum PlayerNum ----
+#[derive(Copy, Clone)]
+pub enum PlayerNum {
+    /// The first player
+    One,
+    /// The second player
+    Two,
 }
 
-// R5: the four update helpers of RegretParams seen from their callers: each is a PURE function of its
-// arguments with a frame (regret_match and cum_regret do not modify the regrets).  These contracts
-// are discharged per helper by Kani harnesses on the real bodies (c08_regret_match_*,
-// c08_discount_cum_regret, c08_discount_average_strat, c02_cum_regret_formula: formula + frame,
-// bounded to slices of length <= 3), so they are cited at the bounded level, assumed beyond it.
-pub uninterp spec fn rm_spec(p: RegretParams, cum_reg: Seq<f64>) -> Seq<f64>;
-pub uninterp spec fn dcr_spec(p: RegretParams, it: u64, cum_reg: Seq<f64>) -> Seq<f64>;
-pub uninterp spec fn das_spec(p: RegretParams, it: u64, avg: Seq<f64>) -> Seq<f64>;
-pub uninterp spec fn cr_spec(p: RegretParams, it: u64, cum_reg: Seq<f64>) -> f64;
-impl RegretParams {
+// PlayerNum::ind / ind_mut use slice patterns in a `match` (rejected by this Verus); they are kept
+// external with the two-case spec, and that spec is discharged against the real bodies by the
+// loop-free Kani harness `playernum_ind` (so it is cited, not assumed).
+impl PlayerNum {
     #[verifier::external_body]
-    pub fn regret_match(&self, cum_reg: &mut [f64], strat: &mut [f64])
-        ensures final(strat)@ == rm_spec(*self, old(cum_reg)@), final(cum_reg)@ == old(cum_reg)@,
+    pub fn ind<'a, T>(&self, arr: &'a [T; 2]) -> (r: &'a T)
+        ensures *r == (match *self { PlayerNum::One => arr[0], PlayerNum::Two => arr[1] })
     { unimplemented!() }
+
     #[verifier::external_body]
-    pub fn discount_cum_regret(&self, it: u64, cum_reg: &mut [f64])
-        ensures final(cum_reg)@ == dcr_spec(*self, it, old(cum_reg)@),
-    { unimplemented!() }
-    #[verifier::external_body]
-    pub fn discount_average_strat(&self, it: u64, avg_strat: &mut [f64])
-        ensures final(avg_strat)@ == das_spec(*self, it, old(avg_strat)@),
-    { unimplemented!() }
-    #[verifier::external_body]
-    pub fn cum_regret(&self, it: u64, cum_reg: &mut [f64]) -> (r: f64)
-        ensures r == cr_spec(*self, it, old(cum_reg)@), final(cum_reg)@ == old(cum_reg)@,
+    pub fn ind_mut<'a, T>(&self, arr: &'a mut [T; 2]) -> (r: &'a mut T)
+        ensures
+            *r == (match *self { PlayerNum::One => old(arr)[0], PlayerNum::Two => old(arr)[1] }),
+            match *self {
+                PlayerNum::One => final(arr)[0] == *final(r) && final(arr)[1] == old(arr)[1],
+                PlayerNum::Two => final(arr)[1] == *final(r) && final(arr)[0] == old(arr)[0],
+            },
     { unimplemented!() }
 }
 
-// ---- extracted from src/solve/data.rs: struct RegretInfoset ----
-pub struct RegretInfoset {
-    pub cum_regret: Box<[f64]>,
-    pub cum_strat: Box<[f64]>,
-    pub strat: Box<[f64]>,
+// ---- extracted from src/lib.rs: enum Node ----
+pub enum Node {
+    /// A terminal node, the game is over the payoff to player one
+    Terminal(f64),
+    /// A chance node, the game advances independent of player action
+    Chance(Chance),
+    /// a node in the tree where the player can choose between different actions
+    Player(Player),
 }
 
-pub trait PlayerRecurse {
-    fn update_cum_strat(&mut self, prob: f64);
-    fn advance(&mut self, it: u64, params: &RegretParams) -> f64;
-}
-pub struct Player { }
-pub struct Node { }
-pub trait ActiveInfo {
-    // callers pass the loop variable of `for it in 1..=max_iter`
-    fn advance<const FIRST: bool>(&mut self, it: u64, params: &RegretParams) -> f64
-        requires it >= 1;
+// ---- extracted from src/lib.rs: struct Chance ----
+pub struct Chance {
+    pub outcomes: Box<[Node]>,
+    pub infoset: usize,
 }
 
-// ---- extracted from src/solve/vanilla.rs: impl PlayerRecurse for RegretInfoset ----
-impl PlayerRecurse for RegretInfoset {
-fn advance(&mut self, it: u64, params: &RegretParams) -> (r: f64) 
-    ensures
-        // textbook order: the next strategy is matched on the regrets BEFORE discounting ...
-        final(self).strat@ == rm_spec(*params, old(self).cum_regret@), // @ob C08.V.advance.match_before_discount
-        // ... then regrets and average strategy are discounted with the caller's iteration number ...
-        final(self).cum_regret@ == dcr_spec(*params, it, old(self).cum_regret@), // @ob C08.V.advance.discount_regrets
-        final(self).cum_strat@ == das_spec(*params, it, old(self).cum_strat@), // @ob C08.V.advance.discount_average
-        // ... and the reported bound is that of the regrets AFTER discounting, same iteration number
-        r == cr_spec(*params, it, final(self).cum_regret@), // @ob C02.V.advance.reports_bound
-{
-        params.regret_match(&mut *self.cum_regret, &mut self.strat);
-        params.discount_cum_regret(it, &mut *self.cum_regret);
-        params.discount_average_strat(it, &mut self.cum_strat);
-        params.cum_regret(it, &mut *self.cum_regret)
-    }
+// ---- extracted from src/lib.rs: struct Player ----
+pub struct Player {
+    pub num: PlayerNum,
+    pub infoset: usize,
+    pub actions: Box<[Node]>,
 }
 
-// R5: std::sync::Mutex as far as `advance` uses it: get_mut() on an exclusively borrowed mutex
-// returns the protected value (lock poisoning -- the Err case -- is not modelled: assumed Ok)
-#[derive(Debug)]
-pub struct PoisonError { }
-pub struct Mutex<T> { pub inner: T }
-impl<T> Mutex<T> {
-    #[verifier::external_body]
-    pub fn get_mut(&mut self) -> (r: Result<&mut T, PoisonError>)
-        ensures r is Ok, *(r->Ok_0) == old(self).inner, final(self).inner == *final(r->Ok_0),
-    { unimplemented!() }
-}
-pub trait MutexPlayerRecurse {
-    fn advance(&mut self, it: u64, params: &RegretParams) -> f64;
-}
+#[verifier::external_body] pub struct AtomicF64 { }
+impl AtomicF64 { pub uninterp spec fn id(&self) -> int; }
+#[verifier::external_body]
+#[verifier::reject_recursive_types(T)]
+pub struct Mutex<T> { t: core::marker::PhantomData<T> }
+pub enum Ordering { Relaxed }
 
 // ---- extracted from src/solve/vanilla.rs: struct MutexRegretInfoset ----
 pub struct MutexRegretInfoset {
-    pub cum_regret: Box<[f64]>,
+    pub cum_regret: Box<[AtomicF64]>,
     pub cum_strat: Mutex<Box<[f64]>>,
     pub strat: Box<[f64]>,
 }
 
-// ---- extracted from src/solve/vanilla.rs: impl MutexPlayerRecurse for MutexRegretInfoset ----
-impl MutexPlayerRecurse for MutexRegretInfoset {
-fn advance(&mut self, it: u64, params: &RegretParams) -> (r: f64) 
-    ensures
-        final(self).strat@ == rm_spec(*params, old(self).cum_regret@), // @ob C08.V.advance.match_before_discount
-        final(self).cum_regret@ == dcr_spec(*params, it, old(self).cum_regret@), // @ob C08.V.advance.discount_regrets
-        final(self).cum_strat.inner@ == das_spec(*params, it, old(self).cum_strat.inner@), // @ob C08.V.advance.discount_average
-        r == cr_spec(*params, it, final(self).cum_regret@), // @ob C02.V.advance.reports_bound
-{
-        params.regret_match(&mut *self.cum_regret, &mut self.strat);
-        params.discount_cum_regret(it, &mut *self.cum_regret);
-        params.discount_average_strat(it, self.cum_strat.get_mut().unwrap());
-        params.cum_regret(it, &mut *self.cum_regret)
+// value of the traversal of the subtree below `n` entered with the given reaches (recursive calls of
+// recurse_single are bound to it: R5)
+pub uninterp spec fn sub_spec(n: Node, p_chance: f64, p_player: [f64; 2]) -> f64;
+// counterfactual weight of the acting player's regrets: opponent reach x chance reach, negated for
+// player two (payoffs are player one's)
+pub open spec fn mult_spec(num: PlayerNum, p_chance: f64, p_player: [f64; 2]) -> real {
+    match num { PlayerNum::One => rv(p_chance) * rv(p_player[1]), PlayerNum::Two => 0real - rv(p_player[0]) * rv(p_chance) }
+}
+pub open spec fn own_reach(num: PlayerNum, p_player: [f64; 2]) -> f64 { match num { PlayerNum::One => p_player[0], PlayerNum::Two => p_player[1] } }
+// reach vector handed to the continuation of action a: only the acting player's entry is multiplied by sigma_a
+pub open spec fn pnext_ok(num: PlayerNum, p_player: [f64; 2], prob: f64, p_next: [f64; 2]) -> bool {
+    match num {
+        PlayerNum::One => rv(p_next[0]) == rv(p_player[0]) * rv(prob) && p_next[1] == p_player[1],
+        PlayerNum::Two => p_next[0] == p_player[0] && rv(p_next[1]) == rv(p_player[1]) * rv(prob),
     }
 }
-
-// ---- extracted from src/solve/external.rs: struct CachedInfoset ----
-pub struct CachedInfoset {
-    pub reg: RegretInfoset,
-    pub cached: usize,
+// u is the value of the subtree below `node`, entered with the SAME chance reach and a reach vector
+// in which only the acting player's entry is multiplied by the action's probability
+pub open spec fn child_value(node: Node, num: PlayerNum, p_chance: f64, p_player: [f64; 2], prob: f64, u: f64) -> bool {
+    exists|pn: [f64; 2]| pnext_ok(num, p_player, prob, pn) && u == #[trigger] sub_spec(node, p_chance, pn)
+}
+pub open spec fn exp_one(strat: Seq<f64>, us: Seq<f64>, k: int) -> real decreases k {
+    if k <= 0 { 0real } else { exp_one(strat, us, k - 1) + rv(strat[k - 1]) * rv(us[k - 1]) }
+}
+pub open spec fn exp_cf(strat: Seq<f64>, us: Seq<f64>, mult: real, k: int) -> real decreases k {
+    if k <= 0 { 0real } else { exp_cf(strat, us, mult, k - 1) + rv(us[k - 1]) * mult * rv(strat[k - 1]) }
 }
 
-// ---- extracted from src/solve/external.rs: impl ActiveInfo for CachedInfoset ----
-impl ActiveInfo for CachedInfoset {
-fn advance<const FIRST: bool>(&mut self, it: u64, params: &RegretParams) -> (r: f64) 
+pub enum Ev {
+    // average strategy of infoset `0` += `1` x its current strategy
+    Ucs(MutexRegretInfoset, f64),
+    // cumulative regret cell `0` += `1`   /   -= `1`
+    Add(int, f64),
+    Sub(int, f64),
+}
+#[verifier::external_body] pub struct ChanceTables { }
+#[verifier::external_body] pub struct Cache { }
+// R16: logged forms of the three effectful calls
+#[verifier::external_body]
+pub fn __update_cum_strat(info: &MutexRegretInfoset, prob: f64, log: &mut Ghost<Seq<Ev>>)
+    ensures final(log)@ == old(log)@.push(Ev::Ucs(*info, prob)),
+{ unimplemented!() }
+#[verifier::external_body]
+pub fn __fetch_sub(cell: &AtomicF64, v: f64, o: Ordering, log: &mut Ghost<Seq<Ev>>)
+    ensures final(log)@ == old(log)@.push(Ev::Sub(cell.id(), v)),
+{ unimplemented!() }
+pub open spec fn rp_ok(us: Seq<f64>, adds: Seq<f64>, player: Player, p_chance: f64, p_player: [f64; 2], strat: Seq<f64>, cells: Seq<AtomicF64>, l_old: Seq<Ev>, l_new: Seq<Ev>, out: (f64, f64)) -> bool {
+    us.len() == player.actions@.len() && adds.len() == us.len()
+    && (forall|a: int| 0 <= a < us.len() ==> #[trigger] child_value(player.actions@[a], player.num, p_chance, p_player, strat[a], us[a]))
+    && (forall|a: int| 0 <= a < us.len() ==> rv(#[trigger] adds[a]) == rv(us[a]) * mult_spec(player.num, p_chance, p_player))
+    && l_new == l_old + Seq::new(us.len(), |a: int| Ev::Add(cells[a].id(), adds[a]))
+    && rv(out.0) == exp_one(strat, us, us.len() as int)
+    && rv(out.1) == exp_cf(strat, us, mult_spec(player.num, p_chance, p_player), us.len() as int)
+}
+#[verifier::external_body]
+pub fn __recurse_player<F: Fn(&Node, [f64; 2]) -> f64>(log: &mut Ghost<Seq<Ev>>, player: &Player, p_chance: f64, p_player: [f64; 2], strat: &[f64], cum_regret: &[AtomicF64], rec: F) -> (out: (f64, f64))
+    requires
+        forall|n: &Node, pn: [f64; 2]| #[trigger] rec.requires((n, pn)),
+        forall|n: &Node, pn: [f64; 2], o: f64| #[trigger] rec.ensures((n, pn), o) ==> o == sub_spec(*n, p_chance, pn),
     ensures
-        // textbook order: the next strategy is matched on the regrets BEFORE discounting ...
-        final(self).reg.strat@ == rm_spec(*params, old(self).reg.cum_regret@), // @ob C08.V.advance.match_before_discount
-        // ... then regrets and average strategy are discounted with the caller's iteration number ...
-        final(self).reg.cum_regret@ == dcr_spec(*params, it, old(self).reg.cum_regret@), // @ob C08.V.advance.discount_regrets
-        final(self).reg.cum_strat@ == das_spec(*params, (if FIRST { (it - 1) as u64 } else { it }), old(self).reg.cum_strat@), // @ob C08.V.advance.discount_average
-        // ... and the reported bound is that of the regrets AFTER discounting, same iteration number
-        r == cr_spec(*params, it, final(self).reg.cum_regret@), // @ob C02.V.advance.reports_bound
-        final(self).cached == 0, // @ob C10.V.cached_infoset.advance_resets_draw
-{
-        self.cached = 0;
-        params.regret_match(&mut *self.reg.cum_regret, &mut self.reg.strat);
-        params.discount_cum_regret(it, &mut *self.reg.cum_regret);
-        // NOTE since we alternate updates, when do the first discounting of player one's average
-        // strat, they'll actually have nothing acumulated, so we actualy want to update on the
-        // second round
-        params.discount_average_strat(if FIRST { it - 1 } else { it }, &mut self.reg.cum_strat);
-        params.cum_regret(it, &mut *self.reg.cum_regret)
-    }
+        exists|us: Seq<f64>, adds: Seq<f64>| #[trigger] rp_ok(us, adds, *player, p_chance, p_player, strat@, cum_regret@, old(log)@, final(log)@, out),
+{ unimplemented!() }
+#[verifier::external_body]
+pub fn __rec(node: &Node, chance_infosets: &ChanceTables, player_infosets: [&[MutexRegretInfoset]; 2], p_chance: f64, p_player: [f64; 2], cached: &Cache) -> (r: f64)
+    ensures r == sub_spec(*node, p_chance, p_player),
+{ unimplemented!() }
+// the events one visit of a decision node appends, given the children's values us
+pub open spec fn ve_ok(us: Seq<f64>, adds: Seq<f64>, sub: f64, pl: Player, p_chance: f64, p_player: [f64; 2], info: MutexRegretInfoset, res: f64, evs: Seq<Ev>) -> bool {
+    let m = mult_spec(pl.num, p_chance, p_player);
+    let n = pl.actions@.len() as int;
+    us.len() == n && adds.len() == n
+        && (forall|a: int| 0 <= a < n ==> #[trigger] child_value(pl.actions@[a], pl.num, p_chance, p_player, info.strat@[a], us[a]))
+        && (forall|a: int| 0 <= a < n ==> rv(#[trigger] adds[a]) == rv(us[a]) * m)
+        && rv(sub) == exp_cf(info.strat@, us, m, n)
+        && rv(res) == exp_one(info.strat@, us, n)
+        // average strategy += own reach x strategy; then regret_a += mult x u_a; then regret_a -= sum_b u_b mult sigma_b
+        && evs == seq![Ev::Ucs(info, own_reach(pl.num, p_player))]
+            + Seq::new(n as nat, |a: int| Ev::Add(info.cum_regret@[a].id(), adds[a]))
+            + Seq::new(n as nat, |a: int| Ev::Sub(info.cum_regret@[a].id(), sub))
 }
+pub open spec fn visit_events(pl: Player, p_chance: f64, p_player: [f64; 2], info: MutexRegretInfoset, res: f64, evs: Seq<Ev>) -> bool {
+    exists|us: Seq<f64>, adds: Seq<f64>, sub: f64| #[trigger] ve_ok(us, adds, sub, pl, p_chance, p_player, info, res, evs)
+}
+
+// ---- extracted from src/solve/vanilla.rs: fn recurse_multi ----
+pub fn recurse_multi__player_arm(player: &Player, chance_infosets: &ChanceTables, player_infosets: [&[MutexRegretInfoset]; 2], p_chance: f64, p_player: [f64; 2], cached: &Cache, log: &mut Ghost<Seq<Ev>>) -> (out: f64)
+    requires
+        player.infoset < (match player.num { PlayerNum::One => player_infosets[0]@, PlayerNum::Two => player_infosets[1]@ }).len(),
+        ({ let i = (match player.num { PlayerNum::One => player_infosets[0]@, PlayerNum::Two => player_infosets[1]@ })[player.infoset as int];
+           i.strat@.len() == player.actions@.len() && i.cum_regret@.len() == player.actions@.len() }),
+    ensures
+        // exactly these updates, on the acting player's infoset of this node, each once
+        exists|evs: Seq<Ev>| final(log)@ == old(log)@ + evs && visit_events(*player, p_chance, p_player,
+            (match player.num { PlayerNum::One => player_infosets[0]@, PlayerNum::Two => player_infosets[1]@ })[player.infoset as int], out, evs), // @ob C08.V.recurse_multi.player_arm
+{
+broadcast use fl; broadcast use ideal;
+proof { ax_obeys(); ax_rv_lits(); }
+let ghost l0 = log@;
+let ghost inf = (match player.num { PlayerNum::One => player_infosets[0]@, PlayerNum::Two => player_infosets[1]@ })[player.infoset as int];
+let ghost n = player.actions@.len() as int;
+
+                // get infoset
+                let info = &player.num.ind(&player_infosets)[player.infoset];
+                __update_cum_strat(info, *player.num.ind(&p_player), log); let ghost lu = log@;
+                let (res, sub) = __recurse_player(log, 
+                    player,
+                    p_chance,
+                    p_player,
+                    &info.strat,
+                    &*info.cum_regret,
+                    |next: &Node, p_next: [f64; 2]| -> (o: f64) ensures o == sub_spec(*next, p_chance, p_next) {
+                        __rec(next,
+                            chance_infosets,
+                            player_infosets,
+                            p_chance,
+                            p_next,
+                            cached,
+                        )
+                    },
+                );
+                let ghost l1 = log@;
+for val in it: info.cum_regret.iter() 
+invariant
+    0 <= it.index@ <= n, n == inf.cum_regret@.len(), *info == inf,
+    log@ == l1 + Seq::new(it.index@ as nat, |a: int| Ev::Sub(inf.cum_regret@[a].id(), sub)),
+{
+let ghost k = it.index@ as int;
+let ghost lb = log@;
+
+                    __fetch_sub(val, sub, Ordering::Relaxed, log);
+                
+proof {
+    assert(*val == inf.cum_regret@[k]);
+    assert(log@ =~= l1 + Seq::new((k + 1) as nat, |a: int| Ev::Sub(inf.cum_regret@[a].id(), sub)));
+}
+}
+let ghost l2 = log@;
+
+                proof {
+    assert(*info == inf);
+    let (us, adds) = choose|us: Seq<f64>, adds: Seq<f64>| #[trigger] rp_ok(us, adds, *player, p_chance, p_player, inf.strat@, inf.cum_regret@, lu, l1, (res, sub));
+    let evs = seq![Ev::Ucs(inf, own_reach(player.num, p_player))]
+        + Seq::new(n as nat, |a: int| Ev::Add(inf.cum_regret@[a].id(), adds[a]))
+        + Seq::new(n as nat, |a: int| Ev::Sub(inf.cum_regret@[a].id(), sub));
+    assert(log@ =~= l0 + evs);
+    assert(ve_ok(us, adds, sub, *player, p_chance, p_player, inf, res, evs));
+}
+res
+            }
 
 
 // vacuity canary: must be REJECTED by the verifier (an inconsistent axiom set would accept it)
 pub proof fn __canary_must_fail()
     ensures false, // @ob __canary
 {
-    broadcast use fl; ax_obeys();
+    broadcast use fl; broadcast use ideal; ax_obeys(); ax_rv_lits();
 }
 
 } // verus!
